@@ -385,6 +385,43 @@ pub fn lengthen(ops: &mut Vec<Op>, prefix: &[u8]) {
     }
 }
 
+/// Turn every key of a call history into *text*: a common prefix of valid
+/// UTF-8 made of multi-byte characters (after 0..3 ASCII bytes, so that the
+/// character boundaries fall on no round offset), followed by the key in
+/// hexadecimal. Order, equality and the prefix relation between keys are
+/// preserved, so a legal history stays legal. Code that formats, measures or
+/// cuts keys as strings (messages attached to errors, say) sees offsets 16,
+/// 32, 64, 128 and 256 inside a character.
+pub fn textify(ops: &mut Vec<Op>, rng: &mut Rng) {
+    let ch: &str = *rng.pick(&["\u{e9}", "\u{20ac}", "\u{1f600}", "\u{20ac}"]);
+    let pad = rng.usize_below(4);
+    let total = *rng.pick(&[20usize, 40, 70, 70, 130, 140, 260, 300]);
+    let mut prefix = String::new();
+    for _ in 0..pad {
+        prefix.push('k');
+    }
+    while prefix.len() < total {
+        prefix.push_str(ch);
+    }
+    let f = |k: &Vec<u8>| -> Vec<u8> {
+        let mut x = prefix.clone().into_bytes();
+        for b in k {
+            x.extend_from_slice(format!("{:02x}", b).as_bytes());
+        }
+        x
+    };
+    for o in ops.iter_mut() {
+        match o {
+            Op::Ins(k, _) | Op::Add(k) => *k = f(k),
+            Op::ExtIter(it) | Op::ExtStream(it, _) => {
+                for (k, _) in it.iter_mut() {
+                    *k = f(k);
+                }
+            }
+        }
+    }
+}
+
 /// Benign acceptance shape (nothing may fail).
 pub fn benign_shape(rng: &mut Rng) -> Shape {
     match rng.below(8) {
